@@ -1,9 +1,62 @@
+"""C09 — Predictions are pure, row-wise, treatment-order-symmetric and control-neutral."""
+import z3
 from pyvc.lib import arrays
 arrays.FLOAT_AS[0] = "float"
 PROPERTY = "C09"
 LEVEL = "proof"
 CONTRACT_MODULES = ["contracts.c09"]
-CARRIERS = ["batchie.common.copy_array_with_control_treatments_set_to_zero", "batchie.models.sparse_combo.predict"]
-EXPLANATION = "wip"
-TRUSTED = []
-ASSUMPTIONS = []
+S = "batchie.models.sparse_combo.SparseDrugComboMCMCSample."
+I = "batchie.models.sparse_combo_interaction.SparseDrugComboInteractionMCMCSample."
+M = "batchie.models.main."
+CARRIERS = ["batchie.common.copy_array_with_control_treatments_set_to_zero", "batchie.models.sparse_combo.predict",
+            "batchie.models.sparse_combo.predict_single_drug", S + "predict_viability", S + "predict_conditional_mean",
+            S + "predict_conditional_variance", I + "predict_conditional_mean", I + "predict_conditional_variance",
+            M + "predict_mean_all", M + "predict_viability_all", M + "predict_mean_avg", M + "predict_viability_avg"]
+NATIVE = "c09.py"
+EXPLANATION = (
+    "Over the reals. copy_array_with_control_treatments_set_to_zero proved: a FRESH array whose row k is 0 when the id is -1 "
+    "and arr[id] otherwise, source untouched (zeroing the source, or returning a view, fails the frame obligation). "
+    "predict / predict_single_drug / both sample classes' predict_* proved pointwise: entry r = fit(sample id r, treatment "
+    "ids of row r) where fit is a spec function of those ids and the parameters ONLY (row purity), viability = "
+    "clip(expit(mean), .01, .99), variance = 1/precision > 0 for every row, NotImplementedError/ValueError exactly for "
+    "unsupported arity, parameters and screen untouched. SMT lemmas from the spec function: fit(s,a,b) = fit(s,b,a) "
+    "(column swap), fit(s,a,-1) = fit1(s,a) and control contributes 0 (sum congruence / zero-sum lemmas proved by "
+    "induction), subset prediction = entries of whole-screen prediction. Helpers: predict_*_all row t = sample t's "
+    "prediction in holder order; *_avg = exact mean (loop invariant over partial sums). NOT covered: the interaction "
+    "sample's viability (dictionary lookups, exp/log), predict_variance_all (np.stack) - bounded native only.")
+TRUSTED = ["pyvc symbolic executor; z3 5.1", "numpy models: integer-array gather (negative index wraps, result fresh), mask row assignment, "
+           "pointwise arithmetic, np.sum(axis=-1) = recursive sum, np.clip, np.repeat", "floating point treated as mathematical reals (NaN/inf not modelled)",
+           "expit is a function (uninterpreted)", "abstract Theta methods are functions of (theta, screen) for the helpers"]
+ASSUMPTIONS = ["column swap / subset equality hold exactly over the reals; in floating point up to summation-order rounding (native check with tolerance)"]
+
+
+def lemmas():
+    from contracts.c09 import fit, fit1, spec_rows, spec_rows1, T_theta, P2, P1, P1s
+    from pyvc.lib.np_real import sumr, sumr_axioms, RealArr
+    from pyvc.values import Int, Real
+    from pyvc.spec import NS
+    from pyvc.lib.arrays import Arr
+    A2 = z3.ArraySort(Int, RealArr)
+    class T:
+        pass
+    t = T()
+    t.W = Arr((z3.Int("nS"), z3.Int("D")), z3.Const("W", A2), "float"); t.V2 = Arr((z3.Int("nT"), z3.Int("D")), z3.Const("V2", A2), "float")
+    t.V1 = Arr((z3.Int("nT"), z3.Int("D")), z3.Const("V1", A2), "float")
+    t.W0 = Arr((z3.Int("nS"),), z3.Const("W0", RealArr), "float"); t.V0 = Arr((z3.Int("nT"),), z3.Const("V0", RealArr), "float")
+    t.alpha = z3.Real("alpha"); t.precision = z3.Real("precision")
+    s, a, b, n, d = z3.Ints("s a b n d")
+    f, zero = z3.Const("f", RealArr), z3.K(Int, z3.RealVal(0))
+    base = spec_rows(t) + spec_rows1(t) + sumr_axioms() + [z3.Int("D") >= 0]
+    out = []
+    # induction lemmas about sumr
+    g = z3.Const("g", RealArr)
+    out.append(("sum_cong:step", [n >= 0, z3.Implies(z3.ForAll([d], z3.Implies(z3.And(d >= 0, d < n), z3.Select(f, d) == z3.Select(g, d))), sumr(f, n) == sumr(g, n)),
+                                  z3.ForAll([d], z3.Implies(z3.And(d >= 0, d < n + 1), z3.Select(f, d) == z3.Select(g, d))),
+                                  sumr(f, n + 1) == sumr(f, n) + z3.Select(f, n), sumr(g, n + 1) == sumr(g, n) + z3.Select(g, n)], sumr(f, n + 1) == sumr(g, n + 1)))
+    out.append(("sum_cong:base", [sumr(f, 0) == 0, sumr(g, 0) == 0], sumr(f, 0) == sumr(g, 0)))
+    out.append(("sum_zero:step", [n >= 0, sumr(zero, n) == 0, sumr(zero, n + 1) == sumr(zero, n) + z3.Select(zero, n)], sumr(zero, n + 1) == 0))
+    zs = z3.ForAll([n], z3.Implies(n >= 0, sumr(zero, n) == 0), patterns=[sumr(zero, n)])
+    out.append(("symmetry", base, fit(t, s, a, b) == fit(t, s, b, a)))
+    out.append(("control_neutral", base + [zs, a >= -1], fit(t, s, a, z3.IntVal(-1)) == fit1(t, s, a)))
+    out.append(("control_both", base + [zs], fit(t, s, z3.IntVal(-1), z3.IntVal(-1)) == t.alpha + z3.Select(t.W0.data, s)))
+    return out
